@@ -860,12 +860,12 @@ def _mirror(obj, sigs, fs, f_range):
     df = obj.df_features
     models = obj.models
     if sigs.ndim == 2:
-        if not isinstance(models, list) or len(models) != len(sigs) or len(df) != len(sigs):
+        if len(models) != len(sigs) or len(df) != len(sigs):
             return 'models / df_features do not have one entry per row'
         pairs = [((i,), models[i], df[i], sigs[i]) for i in range(len(sigs))]
     else:
         n0, n1 = sigs.shape[:2]
-        if not (isinstance(models, list) and len(models) == n0 and all(len(r) == n1 for r in models)):
+        if not (len(models) == n0 and all(len(r) == n1 for r in models)):
             return 'models does not have the nested shape of the array'
         pairs = [((i, j), models[i][j], df[i][j], sigs[i, j]) for i in range(n0) for j in range(n1)]
     for idx, m, t, s in pairs:
